@@ -62,7 +62,7 @@ func loadErrModel(c *core.Ctx) *errModel {
 						m.CodeOf[g.Name()] = code
 					}
 				}
-				if g.Name() == "errorStatuses" {
+				if globalName(g) == "errorStatuses" {
 					m.Table = g
 				}
 			case *ssa.MapUpdate:
@@ -86,8 +86,10 @@ func loadErrModel(c *core.Ctx) *errModel {
 		}
 	}
 	if m.Table == nil {
-		if g, ok := sp.Members["errorStatuses"].(*ssa.Global); ok {
-			m.Table = g
+		for _, mem := range sp.Members {
+			if g, ok := mem.(*ssa.Global); ok && globalName(g) == "errorStatuses" {
+				m.Table = g
+			}
 		}
 	}
 	return m
@@ -269,7 +271,7 @@ func c06StatusFollowsCodeOnly(c *core.Ctx, rule string) {
 			if ex, ok := cd.V.(*ssa.Extract); ok && ex.Index == 1 && !cd.Pos {
 				if lk, ok := ex.Tuple.(*ssa.Lookup); ok {
 					if u, ok := lk.X.(*ssa.UnOp); ok {
-						if g, ok := u.X.(*ssa.Global); ok && g.Name() == "errorStatuses" {
+						if g, ok := u.X.(*ssa.Global); ok && globalName(g) == "errorStatuses" {
 							miss = true
 						}
 					}
